@@ -1,6 +1,6 @@
 // overlaygen builds the `go build -overlay` description that instruments /repo's *current*
 // pkg/cdi sources for Engine B without touching /repo:
-//   - imports of os, path/filepath, sync, golang.org/x/sys/unix and github.com/fsnotify/fsnotify
+//   - imports of os, path/filepath, sync, time, golang.org/x/sys/unix and github.com/fsnotify/fsnotify
 //     are redirected to the shim packages (same local name, so file bodies stay as they are);
 //   - `go f(args)` becomes sync.Go(...) with f and args evaluated at the spawn site;
 //   - `select` over receive cases and bare channel receives go through scheduler-aware helpers;
@@ -30,6 +30,7 @@ var importMap = map[string][2]string{ // original path -> {shim path, default lo
 	"os":                           {shimBase + "vos", "os"},
 	"path/filepath":                {shimBase + "vfilepath", "filepath"},
 	"sync":                         {shimBase + "vsync", "sync"},
+	"time":                         {shimBase + "vtime", "time"},
 	"golang.org/x/sys/unix":        {shimBase + "vunix", "unix"},
 	"github.com/fsnotify/fsnotify": {shimBase + "vfsnotify", "fsnotify"},
 }
@@ -350,6 +351,10 @@ func (r *rewriter) rewriteExprsIn(n ast.Node) {
 	})
 }
 
+// resetFuncs collects the names of the per-file functions generated by rewriteFile that put
+// the unexported package-level variables of a file back to their initial values.
+var resetFuncs []string
+
 func rewriteFile(fset *token.FileSet, f *ast.File, path, out string) {
 	r := &rewriter{fset: fset, file: f, path: path}
 	for _, imp := range f.Imports {
@@ -389,6 +394,43 @@ func rewriteFile(fset *token.FileSet, f *ast.File, path, out string) {
 	var buf bytes.Buffer
 	if err := format.Node(&buf, fset, f); err != nil {
 		die("cannot print rewritten %s: %v", path, err)
+	}
+	// every unexported package-level variable goes back to its initial value before an execution
+	// (its initialiser is evaluated again, or the zero value of its declared type): memo tables,
+	// pools and flags must not carry anything from one explored execution into the next
+	var stmts []string
+	src := func(n ast.Node) string {
+		var b bytes.Buffer
+		_ = format.Node(&b, fset, n)
+		return b.String()
+	}
+	for _, d := range f.Decls {
+		gd, ok := d.(*ast.GenDecl)
+		if !ok || gd.Tok != token.VAR {
+			continue
+		}
+		for _, sp := range gd.Specs {
+			vs := sp.(*ast.ValueSpec)
+			for i, n := range vs.Names {
+				if n.Name == "_" || ast.IsExported(n.Name) {
+					continue
+				}
+				switch {
+				case len(vs.Values) == len(vs.Names):
+					if _, isFunc := vs.Values[i].(*ast.FuncLit); isFunc && vs.Type == nil {
+						continue // a function value: nothing to forget
+					}
+					stmts = append(stmts, fmt.Sprintf("\t%s = %s", n.Name, src(vs.Values[i])))
+				case len(vs.Values) == 0 && vs.Type != nil:
+					stmts = append(stmts, fmt.Sprintf("\t{\n\t\tvar zero %s\n\t\t%s = zero\n\t}", src(vs.Type), n.Name))
+				}
+			}
+		}
+	}
+	if len(stmts) > 0 && !strings.HasSuffix(path, "_windows.go") && !strings.HasSuffix(path, "_other.go") && !strings.HasSuffix(path, "_darwin.go") {
+		name := fmt.Sprintf("verifResetFile%d", len(resetFuncs))
+		resetFuncs = append(resetFuncs, name)
+		fmt.Fprintf(&buf, "\nfunc %s() {\n%s\n}\n", name, strings.Join(stmts, "\n"))
 	}
 	if err := os.WriteFile(out, buf.Bytes(), 0o644); err != nil {
 		die("%v", err)
@@ -522,6 +564,9 @@ func main() {
 				}
 			}
 		}
+	}
+	for _, fn := range resetFuncs {
+		resets = append(resets, "\t"+fn+"()")
 	}
 	exp = strings.Replace(exp, "//RESETS//", strings.Join(resets, "\n"), 1)
 	expPath := filepath.Join(out, "cdi", "export_verif.go")
